@@ -292,8 +292,6 @@ Definition underflow_at (w : bytes) (start : Z) : bool :=
   end.
 Definition kf_C39 (i : val) : Z :=
   match i with
-  | VL [VZ 1; hv] => match dec_hdrs hv with Some hs => if len_changing hs then 1 else 0 | None => 0 end
-  | VL [VZ 3; VL fl] => if existsb (fun f => len_changing (frame_hdrs f)) fl then 1 else 0
   | VL [VZ 2; _; VB b] =>
     match parse_block rd_plain b with
     | PIo _ _ mx | PDone _ _ _ _ mx => if zmax 4 (blen b) <? mx then 2 else 0
